@@ -443,32 +443,17 @@ def check_container_cmps_old(P, ctx):
 
 
 def check_default(P, ctx):
+    from . import evals
     rule = 'C09.default'
     fn = P.fn('cmp')
-    g = P.cfg(fn)
     ctx.fn(fn)
-    N = util.Norm(P, fn, expand_locals=True, keep={'type_of', 'size', 'instance'})
-    mc = [(n, c) for n in g.live() if n['expr'] is not None for c in ir.calls(n['expr']) if ir.callee_name(c) == 'memcmp']
-    ok = len(mc) == 1 and mc[0][0]['kind'] == 'ret'
-    if ok:
-        n, c = mc[0]
-        args = [N.canon(a) for a in c[2]]
-        szc = ir.canon(('call', ('func', 'size'), (('call', ('func', 'type_of'), (('param', 'self', 0),)),)))
-        ok = args[0] == ('param', 0) and args[1] == ('param', 1) and args[2] == szc
-        teq = [x for x in g.live() if x['kind'] == 'cond' and N.canon(x['expr']) == ir.canon(('bin', '==', ('call', ('func', 'type_of'), (('param', 'self', 0),)), ('call', ('func', 'type_of'), (('param', 'obj', 1),))))]
-        nz = [x for x in g.live() if x['kind'] == 'cond' and N.canon(x['expr']) == szc]
-        ok = ok and len(teq) == 1 and len(nz) == 1 and g.must_pass(n['id'], through_edges=[(teq[0]['id'], True)]) and g.must_pass(n['id'], through_edges=[(nz[0]['id'], True)])
-        # otherwise TypeError
-        for x in (teq[0], nz[0]) if ok else ():
-            fb = succ_of(x, False)
-            ok = ok and throw_only(g, fb) and {g.nodes[i]['why'][1] for i in g.reach_from(fb) if g.nodes[i]['kind'] == 'term'} == {'TypeError'}
-    ctx.check(ok, rule, 'cmp:bytewise', site(fn), 'without a Cmp instance, objects are compared byte-wise over size(type) bytes as memcmp(self, obj) only when both have the same type and a non-zero size; otherwise TypeError')
-    ind = [n for n in g.live() if n['expr'] is not None and any(ir.callee_name(c) is None and ir.top_nocast(c[1])[0] == 'arrow' and ir.top_nocast(c[1])[2] == 'cmp' for c in ir.calls(n['expr']))]
-    ok = len(ind) == 1 and ind[0]['kind'] == 'ret'
-    if ok:
-        c = [c for c in ir.calls(ind[0]['expr']) if ir.callee_name(c) is None][0]
-        ok = [ir.canon(a) for a in c[2]] == [('param', 0), ('param', 1)]
-    ctx.check(ok, rule, 'cmp:dispatch', site(fn), 'a type\'s own comparison is called with (self, obj) in order and its result returned unchanged')
+    bad, unsup = evals.eval_default_dispatch(P, 'cmp', 'cmp', 'memcmp', 'lib')
+    for key, what in (('bytewise', 'without a Cmp instance, objects are compared byte-wise over size(type) bytes as memcmp(self, obj) only when both have the same type and a non-zero size; otherwise TypeError'),
+                      ('dispatch', 'a type\'s own comparison is called with (self, obj) in order and its result returned unchanged')):
+        if unsup and not bad[key]:
+            ctx.undecided(rule, 'cmp:' + key, site(fn), 'cmp leaves the evaluated fragment: ' + unsup)
+        else:
+            ctx.check(bad[key] is None, rule, 'cmp:' + key, site(fn), what + ' (evaluated)', [bad[key]] if bad[key] else None)
     ctx.floor(rule, 2)
 
 
